@@ -149,6 +149,13 @@ def build(spec):
         depth = spec.get("overlap_depth", 0)
         for k in range(depth + 1 if depth else 0):
             host(f"stagger_{k}", 502, 300.0 + 2 * k, 330.0 + 2 * k)
+        # host slices whose names carry a classifier keyword in the middle or at the start
+        if spec.get("tag_names"):
+            for k, nm in enumerate(["Rdma Sync Barrier: iteration end", "Barrier: phase 2", "Wait Barrier: 17"]):
+                host(nm, 509, 520.0 + 3 * k, 522.0 + 3 * k, x_form=(k % 2 == 0))
+        # a process with many threads: more distinct thread ids than any pre-computed table of the tool holds
+        for k in range(spec.get("many_tids", 0)):
+            host(f"thread_{k}", 20000 + 7 * k, 500.0 + k, 500.5 + k, x_form=(k % 3 == 0))
         # zero / negative durations: documented removal at ingestion
         if spec.get("bad_dur"):
             host("zero_dur", 503, 400.0, 400.0)
